@@ -32,6 +32,7 @@ RULE = (
     ' Round 7: format-string metacharacters among the odd spellings; id-request warm-ups enumerated.'
     ' Round 13: `known` (the sender and a stored value are in the registry: the yielded fields still spell the line).'
     ' Round 12: `presend` (the controller sent the same message just before the line arrives: it is still accepted or rejected, never swallowed).'
+    ' Round 14: two malformed header fields at once (template-looking text x out-of-domain value, every ordered pair of positions).'
     ' Round 8: `stream` path (the line as bytes through a real StreamReader); MQTT path preceded by another message on the same topic.'
     ' Round 9: BOM/zero-width/NUL prefixes and canonically decomposable characters on every path.'
     ' Round 10: every odd spelling of a field is enumerated with every command (not sampled).'
